@@ -7,6 +7,9 @@ RULE = ("runs of 5-40 (quick) / 5-300 (thorough) secret-bearing lines over a sma
         "$9$ re-encodings of one plaintext under different salt characters (also the clear text itself); replacements read back by position; oracle: equal secrets <-> equal replacement cores; non-trivial = a run with a repeated secret")
 
 
+KEYLESS = ["apply-macro vault token {}", "trusted-value {}", "foo bar {} baz", "remark old={} new"]
+
+
 def run(ctx):
     rng, q = ctx.rng, ctx.quick()
     cases, metas = [], []
@@ -29,12 +32,25 @@ def run(ctx):
         for _ in range(n):
             tpl, _s = rng.choice(tpls)
             s = rng.choice(pool)
+            if s.startswith(("$9$", "$1$")) and rng.random() < 0.35:
+                tpl = rng.choice(KEYLESS)          # a line no keyword pattern recognises: only the hash-shaped catch-all applies
             enc = rng.choice(secretlib.ENCLOSE) if rng.random() < 0.4 else ("", "")
             lines.append(secretlib.build(tpl, s, rng.choice(["", " ", "  "]), "", enc))
             ms.append((tpl, s, enc))
         cases.append(textgen.pipe(lines, flags="p", salt=rng.choice(["s", "Q", "_x", "", "B"])))
         metas.append(ms)
-    m, i = ctx.correspond(cases, project=lambda c, o: textgen.norm(o), label="runs")
+    meta_of = {id(c): ms for c, ms in zip(cases, metas)}
+
+    def project(c, o):
+        """equality pattern of the replacement cores read back by position (which lines share a replacement), not the replacement text"""
+        if o.startswith("RAISED"):
+            return "RAISED"
+        cores = []
+        for l, ol, (tpl, s, enc) in zip(c[11:], textgen.outlines(o), meta_of[id(c)]):
+            st, repl = secretlib.read_back(tpl, ol, enc)
+            cores.append(secretlib.core(repl)[1] if st == "ok" and repl != s else (st, repl == s))
+        return [[a == b for b in cores[:k]] for k, a in enumerate(cores)]
+    m, i = ctx.correspond(cases, project=project, label="runs")
     nt = 0
     for c, out, ms in zip(cases, i, metas):
         if out.startswith("RAISED"):
